@@ -4,7 +4,7 @@ import MemcVerif.Model.Handler
 
 `Op` is what `BinaryHandler` asks `MemcStore` to do for one request (`reqOp`), `applyOp` runs it on
 the `MemStore` (eviction policy none). `handleRequest memOps` factors through these
-(`Proofs/Ops.lean: handleRequest_eq`), so theorems about command histories are stated over `Op`s.
+(`Proofs/Link.lean: handleRequest_eq`), so theorems about command histories are stated over `Op`s.
 -/
 namespace Memc
 
